@@ -156,6 +156,37 @@ class CellWorld:
         del self.srv[name]
         self.down_since_L.pop(name, None)
 
+    def _move_keeps_limits(self, server, target):
+        """True counts (from the leaves) after moving `server` below
+        `target` stay within every declared limit on the new ancestors."""
+        def under(node):
+            if isinstance(node, S.Server):
+                return list(node.apps.values())
+            out = []
+            for ch in node.children_iter():
+                out.extend(under(ch))
+            return out
+        moving = list(server.apps.values())
+        if not moving:
+            return True
+        old = set()
+        n = server.parent
+        while n is not None:
+            old.add(id(n))
+            n = n.parent
+        n = target
+        while n is not None:
+            if id(n) not in old:
+                apps = under(n) + moving
+                for aff in {a.affinity.name for a in moving}:
+                    same = [a for a in apps if a.affinity.name == aff]
+                    for a in same:
+                        lim = a.affinity.limits.get(n.level)
+                        if lim is not None and len(same) > lim:
+                            return False
+            n = n.parent
+        return True
+
     def set_alloc(self, aname, v):
         var = self.cfg['allocs'][aname]['variants'][v]
         alloc = self.allocs[aname]
@@ -222,6 +253,12 @@ class CellWorld:
             self.down_since_L.pop(body[1], None)
         elif kind == 'srm':
             self.remove_server(body[1])
+        elif kind == 'smv':
+            # the server, with what is placed on it, moves below another
+            # bucket (Node.remove_node / add_node of the scheduler API)
+            server = self.srv[body[1]]
+            server.parent.remove_node(server)
+            self.buckets[body[2]].add_node(server)
         elif kind == 'sadd':
             self.add_server(body[1], body[2])
         elif kind == 'alloc':
@@ -332,6 +369,15 @@ class CellWorld:
                 if kind == 'renew':
                     if not self._can_renew(app):
                         continue
+            elif kind == 'smv':
+                if e[1] not in self.srv or \
+                        self.srv[e[1]].parent is self.buckets[e[2]]:
+                    continue
+                if not self._move_keeps_limits(self.srv[e[1]],
+                                               self.buckets[e[2]]):
+                    # the move itself would exceed a limit: the scheduler
+                    # never re-validates limits of standing placements
+                    continue
             elif kind in ('down', 'up', 'frz', 'srm'):
                 if e[1] not in self.srv:
                     continue
